@@ -33,7 +33,7 @@ From Okv Require Import Model.Lit Model.Syntax Model.Comb Model.ParseExpr Model.
   Model.ParseTxn Model.ParseLedger Model.Display Model.DocGrammar Model.RoundTripSpec
   Proofs.DocAccept Proofs.RoundTripNum Proofs.RoundTripExpr Proofs.RoundTripLot Proofs.RoundTripMeta
   Proofs.RoundTripPosting Proofs.RoundTripTxn Proofs.RoundTripDirective Proofs.RoundTripSame
-  Proofs.RoundTripLedger.
+  Proofs.RoundTripLedger Proofs.RoundTripImage.
 Import ListNotations.
 
 Theorem C05_grammar_accepted_partial : forall s : list N,
@@ -129,19 +129,77 @@ Theorem C05_same_meaning_same_text : forall width es es',
 Proof. exact same_meaning_format. Qed.
 Print Assumptions C05_same_meaning_same_text.
 
-(* formatting preserves meaning: for a text that parses into well-formed entries, the formatted
-   text parses to entries with the same meaning *)
-Theorem C05_format_preserves_partial : forall width s es,
+(* the same two laws with the well-formedness of the entries as the hypothesis *)
+Theorem C05_format_preserves_wf : forall width s es,
   parse_ledger s = LOk es -> forallb wf_entry (map e_entry es) = true ->
   exists es', parse_ledger (format_entries width (map e_entry es)) = LOk es' /\
               same_meaning (map e_entry es) (map e_entry es').
 Proof. exact format_preserves. Qed.
+Print Assumptions C05_format_preserves_wf.
+
+Theorem C05_format_idempotent_wf : forall width s t,
+  format_text width s = Some t ->
+  (forall es, parse_ledger s = LOk es -> forallb wf_entry (map e_entry es) = true) ->
+  format_text width t = Some t.
+Proof. exact format_idempotent. Qed.
+Print Assumptions C05_format_idempotent_wf.
+
+(* ---- the parser only returns well-formed entries ---- *)
+Theorem C05_parser_image_number : forall i d r, pretty_decimal i = POk d r -> wf_num d = true.
+Proof. exact RoundTripImageExpr.pretty_decimal_wf. Qed.
+Print Assumptions C05_parser_image_number.
+
+Theorem C05_parser_image_value_expr : forall fuel i v r, value_expr fuel i = POk v r -> wf_vexpr v = true.
+Proof. exact RoundTripImageExpr.value_expr_wf. Qed.
+Print Assumptions C05_parser_image_value_expr.
+
+Theorem C05_parser_image_posting_amount : forall fuel i pa sps r,
+  posting_amount fuel i = POk (pa, sps) r -> wf_posting_amount pa = true.
+Proof. exact RoundTripImageExpr.posting_amount_wf. Qed.
+Print Assumptions C05_parser_image_posting_amount.
+
+Theorem C05_parser_image_metadata : forall fuel i ms r,
+  block_metadata fuel i = POk ms r -> forallb wf_metadata ms = true.
+Proof. exact block_metadata_wf. Qed.
+Print Assumptions C05_parser_image_metadata.
+
+Theorem C05_parser_image_posting : forall fuel i p sps r,
+  posting fuel i = POk (p, sps) r -> wf_posting p = true.
+Proof.
+  exact (RoundTripImageTxn.posting_wf RoundTripImageExpr.value_expr_wf RoundTripImageExpr.posting_amount_wf
+           RoundTripImageExpr.date_wf).
+Qed.
+Print Assumptions C05_parser_image_posting.
+
+Theorem C05_parser_image_transaction_partial : forall fuel i t sps r,
+  transaction fuel i = POk (t, sps) r -> open_paren_payee t = false -> wf_txn t = true.
+Proof.
+  exact (RoundTripImageTxn.transaction_wf RoundTripImageExpr.value_expr_wf RoundTripImageExpr.posting_amount_wf
+           RoundTripImageExpr.date_wf).
+Qed.
+Print Assumptions C05_parser_image_transaction_partial.
+
+(* every entry parse_ledger returns is well formed, outside the open-parenthesis payee corner *)
+Theorem C05_parser_image_wf_partial : forall s es,
+  parse_ledger s = LOk es ->
+  Forall (fun e => entry_open_paren e = false -> wf_entry e = true) (map e_entry es).
+Proof. exact parser_image_wf. Qed.
+Print Assumptions C05_parser_image_wf_partial.
+
+(* ---- the two laws for parsed texts ----
+   formatting preserves meaning: for every text that parses (no payee of the open-parenthesis
+   corner), the formatted text parses to entries with the same meaning *)
+Theorem C05_format_preserves_partial : forall width s es,
+  parse_ledger s = LOk es -> no_open_paren es = true ->
+  exists es', parse_ledger (format_entries width (map e_entry es)) = LOk es' /\
+              same_meaning (map e_entry es) (map e_entry es').
+Proof. exact format_preserves_parsed. Qed.
 Print Assumptions C05_format_preserves_partial.
 
 (* formatting formatted text returns it unchanged *)
 Theorem C05_format_idempotent_partial : forall width s t,
   format_text width s = Some t ->
-  (forall es, parse_ledger s = LOk es -> forallb wf_entry (map e_entry es) = true) ->
+  (forall es, parse_ledger s = LOk es -> no_open_paren es = true) ->
   format_text width t = Some t.
-Proof. exact format_idempotent. Qed.
+Proof. exact format_idempotent_parsed. Qed.
 Print Assumptions C05_format_idempotent_partial.
